@@ -164,7 +164,10 @@ def gen(rng, tier, index):
     """Seeded part: longer generated streams, random and adversarial k-cuts."""
     if rng.random() < 0.7:
         side = "server"
-        g = G.gen_stream(rng, max_req=4, mutate=rng.random() < 0.6, bytemut=0.1, body_max=120)
+        for _ in range(20):
+            g = G.gen_stream(rng, max_req=4, mutate=rng.random() < 0.6, bytemut=0.1, body_max=120)
+            if len(g["stream"]) <= 6000:  # each run replays the stream under many cut sets
+                break
         s, eof = g["stream"], False
         if rng.random() < 0.3:
             # a line sitting exactly at / around its limit
